@@ -18,6 +18,7 @@ From PowHsm Require Import Proofs.SrcEquivGateM.
 From PowHsm Require Import Proofs.SrcLiftGate.
 From PowHsm Require Import Proofs.SrcEquivGateV1M.
 From PowHsm Require Import Proofs.SrcLiftGate2.
+From PowHsm Require Import Proofs.SrcEquivSendCommandM.
 Open Scope N_scope.
 
 (* closed check on the generated except-ladders: every v5 handler maps a link error to (flag set, device error) and a timeout to (flag untouched, device error) *)
@@ -336,5 +337,23 @@ Theorem C11_source_link_fault_reply :
          comm_issue (snd (op w)) = is_comm_fault f /\
          (exists pre : list event, n = pre ++ [Apdu b f] /\ clean P pre).
 Proof. exact (@src_link_fault_reply). Qed.
+
+(* _send_command of the source (APDU framing, exchange, classification of what the transport raises) as translated over the transport primitive = the model's send_command with its classify, on every world *)
+Theorem C11_source_send_command_is_model :
+  forall (cls : string) (fields : list (string * pv)) (cmd : N) (data : bytes) 
+           (timeout : pv) (w : world),
+         cmd < 256 ->
+         srcm_HSM2Dongle___send_command (VObj cls fields) (VInt (Z.of_N cmd)) (VBytes data) timeout w =
+         mres VBytes (send_command cmd data w).
+Proof. exact (@srcm_send_command_source_ok). Qed.
+
+(* the primitive every translated device-facing function calls IS the translated _send_command *)
+Theorem C11_source_send_command_is_the_primitive :
+  forall (cls : string) (fields : list (string * pv)) (cmd : N) (data : bytes) 
+           (timeout : pv) (w : world),
+         cmd < 256 ->
+         srcm_HSM2Dongle___send_command (VObj cls fields) (VInt (Z.of_N cmd)) (VBytes data) timeout w =
+         MV.m_send_command (VInt (Z.of_N cmd)) (VBytes data) w.
+Proof. exact (@srcm_send_command_is_primitive). Qed.
 
 Example C11_nonvacuous : True. Proof. exact I. Qed. (* concrete three-request lifetimes closed by vm_compute in Proofs/C11.v, Module Examples *)
